@@ -1,4 +1,5 @@
 import Driver.C20
+import Driver.C08
 
 def dispatch (line : String) : String :=
   let toks := (line.trimAscii.toString.splitOn " ").filter (· ≠ "")
@@ -6,6 +7,7 @@ def dispatch (line : String) : String :=
   | [] => "bad-op"
   | op :: _ =>
     if op.startsWith "c20." then Driver.C20.handle toks
+    else if op.startsWith "c08." then Driver.C08.handle toks
     else "bad-op"
 
 partial def loop (h : IO.FS.Stream) (out : IO.FS.Stream) : IO Unit := do
